@@ -700,6 +700,19 @@ func (m *model) ruleExitDuties(s *report.Sink) {
 		// registered before the loop on every path: dominates the loop header, no user condition
 		return in.Block().Dominates(m.header) && !m.loopBlocks[in.Block()] && len(userAtoms(m.localAtoms(in.Block()))) == 0
 	}
+	// tickers created by a helper of the loop (`tickerC, stop := stateTicker(emitter, freq); defer stop()`)
+	for _, hf := range m.funcs {
+		if hf == fn {
+			continue
+		}
+		ssax.Instrs(hf, func(in ssa.Instruction) {
+			c, ok := in.(*ssa.Call)
+			if !ok || calleeName(&c.Call) != "time.NewTicker" {
+				return
+			}
+			s.Check(m.helperTickerStopped(hf, c, unconditional), "S16", "loop|ticker stopped#"+hf.Name(), m.ipos(c), "the helper hands the ticker's Stop to the loop, which defers it before looping", "time.NewTicker in a helper whose Stop does not reach an unconditional deferred call of the loop: ticker leaks per directive")
+		})
+	}
 	ssax.Instrs(fn, func(in ssa.Instruction) {
 		if c, ok := in.(*ssa.Call); ok && calleeName(&c.Call) == "time.NewTicker" {
 			tickerNew = c
@@ -754,6 +767,65 @@ func (m *model) ruleExitDuties(s *report.Sink) {
 		}
 		s.Check(good, "S16", "loop|ticker stopped", m.ipos(tickerNew), "ticker is stopped on exit", "time.NewTicker without a deferred Stop of that ticker right after it: ticker leaks per directive")
 	}
+}
+
+// helperTickerStopped: helper hf creates ticker t and either defers t.Stop() itself right away (it then cannot
+// hand the ticker out, which S31/S26 would notice) or returns, together with it, the bound method t.Stop as one
+// of its results on every path that returns after the creation; the loop function calls hf once and defers a call
+// of that result unconditionally before the loop.
+func (m *model) helperTickerStopped(hf *ssa.Function, t *ssa.Call, unconditional func(ssa.Instruction) bool) bool {
+	site, ok := m.bindSite[hf]
+	if !ok || site.Parent() != m.fnLoop {
+		return false
+	}
+	siteVal, ok := site.(ssa.Value)
+	if !ok {
+		return false
+	}
+	// which result carries t.Stop
+	idx := -1
+	good := true
+	ssax.Instrs(hf, func(in ssa.Instruction) {
+		r, isRet := in.(*ssa.Return)
+		if !isRet || !t.Block().Dominates(r.Block()) {
+			return
+		}
+		found := -1
+		for k, res := range r.Results {
+			if mc, ok := res.(*ssa.MakeClosure); ok && len(mc.Bindings) == 1 && mc.Bindings[0] == ssa.Value(t) {
+				if f, ok := mc.Fn.(*ssa.Function); ok && strings.HasPrefix(f.Name(), "Stop$bound") {
+					found = k
+				}
+			}
+		}
+		if found < 0 || (idx >= 0 && idx != found) {
+			good = false
+		}
+		idx = found
+	})
+	if !good || idx < 0 {
+		return false
+	}
+	// the loop defers a call of that result
+	var stopVal ssa.Value
+	if hf.Signature.Results().Len() == 1 {
+		stopVal = siteVal
+	} else if refs := siteVal.Referrers(); refs != nil {
+		for _, r := range *refs {
+			if ex, ok := r.(*ssa.Extract); ok && ex.Index == idx {
+				stopVal = ex
+			}
+		}
+	}
+	if stopVal == nil || stopVal.Referrers() == nil {
+		return false
+	}
+	for _, r := range *stopVal.Referrers() {
+		if d, ok := r.(*ssa.Defer); ok && d.Call.Value == stopVal && unconditional(d) {
+			return true
+		}
+	}
+	return false
 }
 
 // isDrain: the function receives from the enqueue channel until it is closed and does nothing else.
@@ -1900,7 +1972,7 @@ func (m *model) isIdle(v ssa.Value, depth int) bool {
 					}
 				}
 				neg := find(as, func(a atom) bool {
-					return less(a, func(y ssa.Value) bool { return m.isIdle(y, depth+1) }, func(y ssa.Value) bool { return ssax.IsConstInt(y, 0) })
+					return atMost(a, func(y ssa.Value) bool { return m.isIdle(y, depth+1) }, func(y ssa.Value) bool { return ssax.IsConstInt(y, 0) })
 				})
 				if neg == nil {
 					return false
@@ -1943,7 +2015,7 @@ func (m *model) isIdle(v ssa.Value, depth int) bool {
 			case ssax.IsConstInt(r.Results[0], 0):
 				// clamp written as an early return: only under (a - b) < 0
 				neg := find(m.localAtoms(r.Block()), func(a atom) bool {
-					return less(a, func(y ssa.Value) bool { return m.isIdleIn(y, bind, 0) }, func(y ssa.Value) bool { return ssax.IsConstInt(y, 0) })
+					return atMost(a, func(y ssa.Value) bool { return m.isIdleIn(y, bind, 0) }, func(y ssa.Value) bool { return ssax.IsConstInt(y, 0) })
 				})
 				if neg == nil {
 					good = false
@@ -1992,7 +2064,7 @@ func (m *model) isIdleIn(v ssa.Value, bind map[*ssa.Parameter]ssa.Value, depth i
 					}
 				}
 				if find(as, func(a atom) bool {
-					return less(a, func(y ssa.Value) bool { return m.isIdleIn(y, bind, depth+1) }, func(y ssa.Value) bool { return ssax.IsConstInt(y, 0) })
+					return atMost(a, func(y ssa.Value) bool { return m.isIdleIn(y, bind, depth+1) }, func(y ssa.Value) bool { return ssax.IsConstInt(y, 0) })
 				}) == nil {
 					return false
 				}
